@@ -232,3 +232,37 @@ PROPS["C12"] = {
         {"name": "c12.roster", "engine": "rapid", "quick": R(8, 15000), "thorough": R(16, 800000)},
     ],
 }
+
+PROPS["C09"] = {
+    "binary": "c09_sm",
+    "level": "exploration",
+    "technique": "stateful model-based testing: exhaustive enumeration of all operation sequences of a bounded depth (odometer over choice points) plus rapidcheck random sequences up to 60 operations, against a reference model of XEP-0198",
+    "level_text": ("Operation sequences over {send stanza/nonza, server ack h (exact, stale, between, beyond, 2^32-1), server <r/>, receive message/presence/iq/nonza, connection loss, resume accepted with h, resume failed then new session with/without stream management, enable failed, send while disconnected} drive the real C2sStreamManager and StreamAckManager of a socketless client; "
+                   "after every operation each delivery report is compared with the model (acknowledged iff covered, never twice), the stanzas re-sent at session start are compared with the model's uncovered queue (order, none of the covered), and h in every <a/> and <resume/> with the model's handled count."),
+    "level_note": "Trusted: the reference model in harness/c09_sm.cpp (written from XEP-0198). <failed/> is generated without the optional h attribute (the codec has no such field). Without a socket a stanza sent while stream management is off fails at once with a write error; those are modelled as 'reported as error, never queued'.",
+    "rule": "Non-trivial: the history contains a connection loss with at least one covered and one uncovered stanza, or an ack that is stale, beyond the sent count, or 2^32-1. Distinct = the history text.",
+    "assumptions": ["the server's h is trusted as received (a conforming server never acks more than it got; 'beyond' acks are still generated and must only cover what exists)"],
+    "exhaustive_claim": True,
+    "exhaustive_scope": "c09.enum: every sequence of `depth` operations (depth 5 quick, 6 thorough) over the reduced alphabet {send message, ack exact|stale|between, <r/>, receive message|nonza, loss, reconnect new+sm|resume(h at, +1)|new without sm}",
+    "subs": [
+        {"name": "c09.enum", "engine": "enum", "quick": {"workers": 8, "cases": 0, "params": {"depth": 5, "partition_depth": 2}, "max_seconds": 300},
+         "thorough": {"workers": 16, "cases": 0, "params": {"depth": 6, "partition_depth": 3}, "max_seconds": 3000}},
+        {"name": "c09.random", "engine": "rapid", "quick": R(6, 10000), "thorough": R(16, 500000)},
+    ],
+}
+
+PROPS["C07"] = {
+    "binary": "c07_requests",
+    "level": "exploration",
+    "technique": "stateful model-based property testing (rapidcheck) with re-entrant operations from inside completion handlers; table-driven sweep of the managers' request APIs against scripted server behaviours",
+    "level_text": ("Histories of up to 40 operations over send(to, id incl. empty and duplicates), stanzas carrying a pending id (type result/error/get/set/none x nine sender kinds x payloads), duplicate replies, unrelated IQs, disconnect (resumable or not) and reconnect (resumed, new with/without stream management), "
+                   "with completion handlers that send another request or close the session, run against the real client; after every operation each task's completion count and value equal the reference model, and after a final non-resumable close every task has completed exactly once. "
+                   "34 manager request APIs are each exercised against empty result, error, unexpected payload, malformed error and silence followed by a non-resumable disconnect: the returned task completes exactly once."),
+    "level_note": "Trusted: the reference model in harness/c07_requests.cpp. A reply without 'from' is treated as coming from the user's own server (the documented rule of the IQ manager). ASan/UBSan/Q_ASSERT (a promise finished twice) are part of the oracle.",
+    "rule": "Non-trivial (c07.iq): >=2 requests outstanding together with a wrong-sender stanza, a duplicate id, a disconnect with pending requests, or a re-entrant handler; (c07.managers): every (API, behaviour) pair. Distinct = history text / pair.",
+    "assumptions": ["completion handlers do not destroy the client object itself"],
+    "subs": [
+        {"name": "c07.iq", "engine": "rapid", "quick": R(8, 8000), "thorough": R(16, 600000)},
+        {"name": "c07.managers", "engine": "rapid", "quick": R(4, 1500), "thorough": R(8, 60000)},
+    ],
+}
